@@ -137,6 +137,7 @@ func runC04(c *Ctx) {
 
 	const r2 = "C04.R2 transports never deliver a nil message"
 	ruleNoNilMessage(c, r2)
+	ruleWebsocketServerProtocols(c, r2)
 	c.R.Floor(r2, 6)
 
 	// R3: reviewed panic sites
